@@ -64,7 +64,7 @@ def main():
         shutil.copy(os.path.join(demo_dir, f), os.path.join(dest, "demo", f))
     if os.path.exists(os.path.join(demo_dir, "README.md")):
         shutil.copy(os.path.join(demo_dir, "README.md"), os.path.join(dest, "README.md"))
-    meta = {"property": prop, "name": name, "demo_cmd": "go test -tags %s -count=1 ./SEED_DEMO/   (demo/ copied to <worktree>/SEED_DEMO/)" % tag, "source": "independent sub-agent given only the property text and a scratch worktree",
+    meta = {"property": prop, "name": name, "demo_cmd": "go test %s -tags %s -count=1 ./SEED_DEMO/   (demo/ copied to <worktree>/SEED_DEMO/)" % (os.environ.get("SEED_DEMO_FLAGS", ""), tag), "source": "independent sub-agent given only the property text and a scratch worktree",
             "alt": alt, "files_changed": [l[6:] for l in patch.splitlines() if l.startswith("+++ b/")]}
 
     # ---- 2. confirmation in a fresh scratch worktree
@@ -75,7 +75,8 @@ def main():
     rc, out = sh(["git", "-C", "/repo", "worktree", "add", "-q", "--detach", wt, "HEAD"])
     try:
         shutil.copytree(os.path.join(dest, "demo"), os.path.join(wt, "SEED_DEMO"))
-        rc0, out0 = sh(["go", "test", "-tags", tag, "-count=1", "./SEED_DEMO/"], cwd=wt)
+        extra = os.environ.get("SEED_DEMO_FLAGS", "").split()
+        rc0, out0 = sh(["go", "test"] + extra + ["-tags", tag, "-count=1", "./SEED_DEMO/"], cwd=wt)
         meta["demo_without_change"] = "pass" if rc0 == 0 else "FAIL"
         rc, out = sh(["git", "apply", os.path.join(dest, "patch.diff")], cwd=wt)
         if rc != 0:
@@ -86,7 +87,7 @@ def main():
         meta["builds"] = rcb == 0
         missing, failed = suite(wt)
         meta["suite_with_change"] = "as baseline" if not missing else "BASELINE TESTS FAILING: %s" % missing
-        rc1, out1 = sh(["go", "test", "-tags", tag, "-count=1", "./SEED_DEMO/"], cwd=wt)
+        rc1, out1 = sh(["go", "test"] + extra + ["-tags", tag, "-count=1", "./SEED_DEMO/"], cwd=wt)
         meta["demo_with_change"] = "fail" if rc1 != 0 else "PASSES (does not demonstrate)"
         meta["demo_output_tail"] = out1[-500:]
     finally:
